@@ -39,6 +39,7 @@ type lbLeaf struct {
 	accVar  string
 	raw     string
 	inexact bool // uses a float operation whose Lean stand-in is not bit-exact, or a field the case line does not carry
+	partial bool // calls a helper with a data-dependent panic path
 }
 
 type lbTree struct {
@@ -59,6 +60,8 @@ type lbResult struct {
 	ok               string
 	raw              string
 	inexact          bool
+	partial          bool
+	setVCC           string // noLane: the constant handed to SetVCC ("none" when there is no write)
 }
 
 type lbArch struct {
@@ -72,6 +75,7 @@ type lbArch struct {
 	pureOrder   []string
 	emu         *lbArch // the arch whose package is amd/emu (helpers called as emu.F from cdna3)
 	pureInexact map[string]bool
+	purePartial map[string]bool // helpers with a data-dependent panic path (the path yields zero in the model)
 }
 
 var lbInstFields = map[string][2]string{ // Go field -> (Lean field, Lean type)
@@ -216,12 +220,34 @@ type lbCtx struct {
 	named   []string // named results of a pure helper
 	mem     *lmCtx   // memory bodies (lanemem.go)
 	memPure bool     // translating flatAddrWithScalar: the lane's address operand is a parameter
+	// inner loops (second deepening): inside the body of a `for` with constant bounds nested in the lane loop
+	// (or in a pure helper) `break` / `continue` / the end of the body yield the loop state
+	innerFinish func(env map[string]string, ind string, brk bool) string
+	inUnrolled  int      // inside an unrolled `range` over an array literal: break / continue are refused
+	retZero     string   // pure helper: the zero value of its result (what a path that panics returns)
+	partial     bool     // the helper / body has a data-dependent `log.Panic` path that is not modelled
+	loopRange   map[string][2]int // inner loop variables (never assigned in the body) with their constant range
+}
+
+// lbCont is a synthetic last statement of a statement list: the continuation of an inner loop iteration
+type lbCont struct {
+	*ast.EmptyStmt
+	run func(env map[string]string, ind string) string
 }
 
 func (c *lbCtx) fail(n ast.Node, f string, args ...any) string { return c.t.fail(n, f, args...) }
 
 func (c *lbCtx) hooks() {
-	c.t.exprHook = c.floatHook
+	c.t.exprHook = func(e ast.Expr, env map[string]string) (string, bool) {
+		if s, ok := c.deepExpr(e, env); ok {
+			return s, true
+		}
+		return c.floatHook(e, env)
+	}
+	c.t.shiftOK = func(e ast.Expr) bool {
+		lo, _, ok := c.interval(e)
+		return ok && lo >= 0
+	}
 	c.t.selHook = func(e *ast.SelectorExpr, env map[string]string) (string, bool) {
 		if id, ok := e.X.(*ast.Ident); ok && id.Name == "inst" {
 			if f, ok := lbInstFields[e.Sel.Name]; ok {
@@ -309,6 +335,10 @@ func (c *lbCtx) hooks() {
 			}
 			if owner.pureInexact[lean] {
 				c.leaf.inexact = true
+			}
+			if owner.purePartial[lean] {
+				c.partial = true
+				c.leaf.partial = true
 			}
 			args := []string{}
 			k := 0
@@ -407,6 +437,16 @@ func (a *lbArch) pureFunc(fd *ast.FuncDecl) (string, error) {
 	a.pure[lean] = "" // recursion guard
 	c := &lbCtx{a: a, t: &aluTr{info: a.info, fset: a.fset}, mode: "pure", leaf: &lbLeaf{}, immut: map[string]bool{}}
 	c.hooks()
+	{
+		var zs []string
+		for _, ty := range rtys {
+			zs = append(zs, lbZero(ty))
+		}
+		c.retZero = zs[0]
+		if len(zs) > 1 {
+			c.retZero = "(" + strings.Join(zs, ", ") + ")"
+		}
+	}
 	pre := ""
 	for _, nt := range named { // named results start at zero
 		nm, ty, _ := strings.Cut(nt, ":")
@@ -425,6 +465,12 @@ func (a *lbArch) pureFunc(fd *ast.FuncDecl) (string, error) {
 		a.pureInexact = map[string]bool{}
 	}
 	a.pureInexact[lean] = c.leaf.inexact
+	if c.partial {
+		if a.purePartial == nil {
+			a.purePartial = map[string]bool{}
+		}
+		a.purePartial[lean] = true
+	}
 	a.pureOrder = append(a.pureOrder, lean)
 	return lean, nil
 }
@@ -465,6 +511,12 @@ func (c *lbCtx) stmts(list []ast.Stmt, env map[string]string, ind string) string
 		return c.finish(env, ind)
 	}
 	s, rest := list[0], list[1:]
+	if k, ok := s.(*lbCont); ok {
+		return k.run(env, ind)
+	}
+	if out, ok := c.deepStmt(s, rest, env, ind); ok {
+		return out
+	}
 	if c.mode == "mem" && c.mem != nil {
 		if out, ok := c.mem.memStmt(s, rest, env, ind); ok {
 			return out
@@ -478,6 +530,9 @@ func (c *lbCtx) stmts(list []ast.Stmt, env map[string]string, ind string) string
 	case *ast.ReturnStmt:
 		if c.mode != "pure" || (len(s.Results) == 0 && len(c.named) == 0) {
 			return t.fail(s, "return inside a lane loop")
+		}
+		if c.innerFinish != nil {
+			return t.fail(s, "return inside an inner for loop")
 		}
 		var rs []string
 		for _, r := range s.Results {
@@ -493,6 +548,12 @@ func (c *lbCtx) stmts(list []ast.Stmt, env map[string]string, ind string) string
 		}
 		return ind + "(" + strings.Join(rs, ", ") + ")"
 	case *ast.BranchStmt:
+		if c.innerFinish != nil && s.Label == nil && c.inUnrolled == 0 && (s.Tok == token.CONTINUE || s.Tok == token.BREAK) {
+			return c.innerFinish(env, ind, s.Tok == token.BREAK)
+		}
+		if c.inUnrolled > 0 {
+			return t.fail(s, "%s inside an unrolled range loop", s.Tok)
+		}
 		if s.Tok == token.CONTINUE && s.Label == nil && (c.mode == "lane" || c.mode == "mem") {
 			return c.finish(env, ind)
 		}
@@ -587,8 +648,17 @@ func (c *lbCtx) stmts(list []ast.Stmt, env map[string]string, ind string) string
 		return out + c.stmts(rest, env2, ind)
 	case *ast.ExprStmt:
 		call, ok := s.X.(*ast.CallExpr)
+		if ok && c.mode == "pure" && lbIsPanic(s) && c.retZero != "" {
+			// a data-dependent abort inside a helper: the path yields the zero value; the helper is marked partial
+			c.partial = true
+			c.leaf.inexact = true
+			return ind + c.retZero
+		}
 		if !ok || c.mode != "lane" {
 			return t.fail(s, "expression statement")
+		}
+		if c.innerFinish != nil {
+			return t.fail(s, "call statement inside an inner loop")
 		}
 		if name := types.ExprString(call.Fun); name != "state.WriteOperand" {
 			return t.fail(s, "call statement %s", name)
@@ -1114,6 +1184,17 @@ func (a *lbArch) translate(h *lfHandler) (res *lbResult) {
 			return r
 		}
 	}
+	if cat == "library" || cat == "innerLoop" {
+		// second deepening: inner loops with constant bounds (folds), three-element slices + sort.Ints
+		if r := a.tryDeep(h, fd, cat); r != nil {
+			return r
+		}
+	}
+	if cat == "noLaneCode" {
+		if r := a.tryNoLane(h, fd); r != nil {
+			return r
+		}
+	}
 	if cat != "" {
 		res.cov, res.callees = cat, callees
 		if cat == "wrapper" {
@@ -1185,6 +1266,9 @@ func (a *lbArch) core(h *lfHandler, fd *ast.FuncDecl, res *lbResult) {
 	for _, l := range loops {
 		if l.inexact {
 			res.inexact = true
+		}
+		if l.partial {
+			res.partial = true
 		}
 		if l.guard != res.guard || l.accInit != res.accInit || l.sink != res.sink {
 			f.refuse(fd, "the lane loops on different instruction-field paths disagree on guard / accumulator / write-back")
@@ -1279,6 +1363,15 @@ func genLaneBodies(handlers []*lfHandler) {
 			}
 		}
 	}
+	for _, fn := range lbForcedPure {
+		fd, ok := archs["gcn3"].funcs[fn]
+		if !ok {
+			fatalf("lanebody: function %s of amd/emu (used by the C06 model of the SDWA wrapper / lane guard) not found", fn)
+		}
+		if _, err := archs["gcn3"].pureFunc(fd); err != nil {
+			fatalf("lanebody: function %s of amd/emu is outside the translated subset: %v", fn, err)
+		}
+	}
 	var b strings.Builder
 	b.WriteString("-- GENERATED by /verif/translate (lanebody.go) from amd/emu/aluv*.go and amd/emu/cdna3/v*.go; do not edit\n")
 	b.WriteString("import MgpuModel.C06_Body\nimport MgpuModel.C06_Mem\nset_option linter.unusedVariables false\nnamespace Gen.Lane\nopen C06\n\n")
@@ -1327,6 +1420,7 @@ func genLaneBodies(handlers []*lfHandler) {
 	}
 	b.WriteString("]\n\n/-- one row per vector handler record, in the order of `Gen.vectorHandlers`: how it is covered -/\ndef coverage : List CovRow := [\n")
 	counts := map[string]int{}
+	nConst := 0
 	for i, r := range results {
 		counts[r.cov]++
 		sep := ","
@@ -1337,6 +1431,9 @@ func genLaneBodies(handlers []*lfHandler) {
 		switch r.cov {
 		case "translated", "translatedF":
 			cov = fmt.Sprintf(".%s %d", r.cov, idx[r.arch+"."+r.name])
+		case "constant":
+			cov = fmt.Sprintf(".constant %d", nConst)
+			nConst++
 		case "wrapper":
 			cs := append([]string{}, r.callees...)
 			sort.Strings(cs)
@@ -1356,6 +1453,7 @@ func genLaneBodies(handlers []*lfHandler) {
 		}
 	}
 	b.WriteString("]\n\n")
+	lbWriteDeep(&b, archs, imp, results)
 	lbWriteMemFacts(&b, memFacts)
 	lbWriteMemHandlers(&b, memBodies)
 	b.WriteString("end Gen.Lane\n")
